@@ -77,6 +77,10 @@ def main():
             if rc != 0:
                 res["demo_clean_out"] = out
         rc, out = sh("git apply %s" % os.path.join(mdir, "patch.diff"), wt)
+        if rc != 0:
+            # the patch was written against an earlier HEAD of /repo (before later fix: commits): merge it
+            rc, out = sh("git apply --3way %s && git reset -q" % os.path.join(mdir, "patch.diff"), wt)
+            res["applied_3way"] = True
         res["apply_rc"] = rc
         if rc != 0:
             res["apply_out"] = out
